@@ -201,6 +201,11 @@ func Generate(p *Profile, seed uint64) *Scenario {
 	if sw.Pct(20) {
 		pCache = 0
 	}
+	if sw.Pct(20) {
+		// leaf hashes that come back: an added leaf may repeat the hash of a leaf
+		// deleted by the same block or earlier (never of a live one)
+		sc.ReAdd = true
+	}
 	if p.PrefixSharePct > 0 && sw.Pct(p.PrefixSharePct) {
 		sc.PrefixShare = true
 	}
